@@ -23,12 +23,30 @@ const None = -2000000000
 
 // Case is one input: an element set (or scene), a tree depth and queries.
 //
-//	kind "point": verts are the points (identity indices)
-//	kind "line" : idx is a line strip through verts (segment i = idx[i], idx[i+1])
+//	kind "point": element i is vertex idx[i]; an empty idx is the point cloud with
+//	              implied indices (modeling.NewPointCloud)
+//	kind "line" : idx is a line strip through verts (segment i = idx[i], idx[i+1]);
+//	              an empty idx is the strip through all vertices in storage
+//	              order (modeling.NewLineStripMesh)
 //	kind "tri"  : idx holds three vertex ids per triangle
 //	kind "box"  : idx holds two vertex ids (any two opposite corners) per box
 //	kind "sphere": sph holds [cx,cy,cz,r] per sphere          (BVH scene)
 //	kind "bvhtri": verts/idx as for "tri"                      (BVH scene)
+//
+// For the mesh kinds (point, line, tri) idx may be any index buffer: permuted
+// storage order, shared vertices, vertices nothing refers to, the same vertex
+// several times. attr selects the entry point and the float3 attribute the
+// tree is built on:
+//
+//	""       Mesh.OctTree() (depth -1) / Mesh.OctTreeDepth(depth): Position
+//	other    Mesh.OctTreeWithAttributeAndDepth(attr, depth) with verts stored in
+//	         attribute attr ("Position" is allowed: the explicit route); depth -1
+//	         is resolved the way Mesh.OctTree does (trees.OctreeDepthFromCount)
+//
+// decoy, when not empty, is the data of ANOTHER float3 attribute of the same
+// mesh (one entry per vertex): it is stored under Position when attr names
+// another attribute and under "Rest" otherwise. A mesh with attr = "Rest" and
+// no decoy has no Position attribute at all. Nothing may ever read the decoy.
 //
 // depth -1 is the automatic depth. Ranges are [x,y,z,rn,rd] (radius rn/rd),
 // rays are [ox,oy,oz,dx,dy,dz,t0n,t1n,td] (tmin=t0n/td, tmax=t1n/td).
@@ -38,6 +56,9 @@ type Case struct {
 	Kind   string  `json:"kind"`
 	Verts  [][]int `json:"verts"`
 	Idx    []int   `json:"idx"`
+	Attr   string  `json:"attr"`
+	Decoy  [][]int `json:"decoy"`
+	Lay    string  `json:"lay,omitempty"`
 	Sph    [][]int `json:"sph"`
 	Depth  int     `json:"depth"`
 	Reps   int     `json:"reps"`
@@ -68,15 +89,29 @@ type treeLine struct {
 	Exact bool   `json:"exact"`
 	Eb    []box  `json:"eb"`
 	Cells []cell `json:"cells"`
+	// the route the tree came from (attr as in the case, "" = Mesh.OctTree /
+	// OctTreeDepth; ident: the index buffer is implied or 0,1,2,..; nopos: the
+	// mesh has no Position attribute) and the mesh-level scan of the bounds:
+	// Primitive.BoundingBox(attr) of every primitive handed out by
+	// Mesh.ScanPrimitives (mst "NONE": no mesh, hand-built elements; "FAIL": a
+	// call panicked; "INEXACT": a bound that is not a lattice integer)
+	Attr  string `json:"attr"`
+	Ident bool   `json:"ident"`
+	NoPos bool   `json:"nopos"`
+	Mst   string `json:"mst"`
+	Meb   []box  `json:"meb"`
 }
 
 // Entries carry no copy of the query: entry i of a batch answers query i of the
 // case's list (qpts for closest/contain, ranges for range, rays otherwise).
+// mcp is the mesh-level scan: Primitive.ClosestPoint(attr, q) of every
+// primitive of the mesh the tree was asked from (empty without a mesh).
 type closestEntry struct {
-	D2 []int   `json:"d2"`
-	Cp [][]int `json:"cp"`
-	Ri int     `json:"ri"`
-	Rp []int   `json:"rp"`
+	D2  []int   `json:"d2"`
+	Cp  [][]int `json:"cp"`
+	Mcp [][]int `json:"mcp"`
+	Ri  int     `json:"ri"`
+	Rp  []int   `json:"rp"`
 }
 
 type setEntry struct {
@@ -101,14 +136,17 @@ type nearEntry struct {
 // batchLine: fail lists the (1-based) entries whose call panicked, nan those
 // with a non-finite or out-of-budget real among the FACTS (the input is then
 // outside what the harness can project), nana those where the ANSWER of the
-// index is non-finite or out of budget (the answer is then simply wrong).
+// index is non-finite or out of budget (the answer is then simply wrong),
+// mfail those where a call of the mesh-level scan panicked or returned a
+// non-finite / out-of-budget real.
 type batchLine struct {
-	K    string      `json:"k"`
-	Case int         `json:"case"`
-	Fail []int       `json:"fail"`
-	Nan  []int       `json:"nan"`
-	Nana []int       `json:"nana"`
-	B    interface{} `json:"b"`
+	K     string      `json:"k"`
+	Case  int         `json:"case"`
+	Fail  []int       `json:"fail"`
+	Nan   []int       `json:"nan"`
+	Nana  []int       `json:"nana"`
+	Mfail []int       `json:"mfail"`
+	B     interface{} `json:"b"`
 }
 
 type hitRes struct {
@@ -123,6 +161,8 @@ type hitEntry struct {
 	List hitRes `json:"list"`
 	Bvh  hitRes `json:"bvh"`
 	Oct  hitRes `json:"oct"`
+	Msh  hitRes `json:"msh"`
+	Msh2 hitRes `json:"msh2"`
 }
 
 type sceneLine struct {
